@@ -53,6 +53,14 @@ class NodeTC(Node):
     """Same, but its printer accepts the trailing_comment keyword."""
 
 
+class LazyBase(Node):
+    """Its printer is registered *by qualified name* (promoted on first use)."""
+
+
+class LazyNode(LazyBase):
+    """Instances of this subclass are what gets printed."""
+
+
 def _raise_selected(sel):
     # explicit chain: a symbolic index into a list of classes is unsupported
     # the message contains format-string metacharacters on purpose
@@ -92,6 +100,10 @@ def register():
         # be used for a Node, failing or not)
         PP.register_pretty(predicate=lambda v: isinstance(v, Node))(pretty_by_predicate)
         _registered[0] = True
+    # (re-)register the by-name printer whenever it is neither pending nor promoted
+    if LazyBase not in PP.pretty_dispatch.registry and \
+            'vf.props.c14.LazyBase' not in PP._DEFERRED_DISPATCH_BY_NAME:
+        PP.register_pretty('vf.props.c14.LazyBase')(pretty_node)
 
 
 # tree specs: ['node', id, [children]] | ['nodetc', id, [children]] | ['tc', text, spec]
@@ -101,8 +113,9 @@ def build(spec, memo=None):
     if memo is None:
         memo = {}
     k = spec[0]
-    if k in ('node', 'nodetc'):
-        o = (Node if k == 'node' else NodeTC)(spec[1], *[build(c, memo) for c in spec[2]])
+    if k in ('node', 'nodetc', 'lazynode'):
+        cls = {'node': Node, 'nodetc': NodeTC, 'lazynode': LazyNode}[k]
+        o = cls(spec[1], *[build(c, memo) for c in spec[2]])
         memo[spec[1]] = (o, spec)
         return o
     if k == 'ref':                      # the very same object again (sharing, no cycle)
@@ -128,7 +141,7 @@ def resolve_refs(spec, memo=None):
     if memo is None:
         memo = {}
     k = spec[0]
-    if k in ('node', 'nodetc'):
+    if k in ('node', 'nodetc', 'lazynode'):
         out = [k, spec[1], [resolve_refs(c, memo) for c in spec[2]]]
         memo[spec[1]] = out
         return out
@@ -145,7 +158,7 @@ def resolve_refs(spec, memo=None):
 
 def preorder(spec, out):
     k = spec[0]
-    if k in ('node', 'nodetc'):
+    if k in ('node', 'nodetc', 'lazynode'):
         out.append(spec[1])
         for c in spec[2]:
             preorder(c, out)
@@ -167,11 +180,11 @@ def expected_src(spec, failed_occurrence, counter=None):
     if counter is None:
         counter = [0]
     k = spec[0]
-    if k in ('node', 'nodetc'):
+    if k in ('node', 'nodetc', 'lazynode'):
         counter[0] += 1
         if counter[0] == failed_occurrence:
             return 'NODE_%d' % spec[1]
-        name = 'vf.props.c14.' + ('Node' if k == 'node' else 'NodeTC')
+        name = 'vf.props.c14.' + {'node': 'Node', 'nodetc': 'NodeTC', 'lazynode': 'LazyNode'}[k]
         return '%s(%s)' % (name, ', '.join(expected_src(c, failed_occurrence, counter) for c in spec[2]))
     if k in ('tc', 'c'):
         return expected_src(spec[2], failed_occurrence, counter)
@@ -192,12 +205,12 @@ def tc_nodes(spec, out, under_tc=False):
         inner = spec[2]
         while inner[0] in ('tc', 'c'):
             inner = inner[2]
-        if inner[0] in ('node', 'nodetc'):
+        if inner[0] in ('node', 'nodetc', 'lazynode'):
             out.add(inner[1])
         tc_nodes(spec[2], out)
     elif k == 'c':
         tc_nodes(spec[2], out)
-    elif k in ('node', 'nodetc'):
+    elif k in ('node', 'nodetc', 'lazynode'):
         for c in spec[2]:
             tc_nodes(c, out)
     elif k in ('list', 'tuple'):
@@ -230,6 +243,14 @@ class FaultCase(base.CaseBase):
                 pfbase.slice_pre(self.slice, w, rw))
 
     def run(self, i, sel, w, rw):
+        with NoTracing():
+            # back to "registered by name, not promoted yet" for the lazy classes
+            from vf.props import c15
+            cells = c15._cells()
+            cells['registry'].pop(LazyBase, None)
+            cells['registry'].pop(LazyNode, None)
+            cells['dispatch_cache'].clear()
+            PP._DEFERRED_DISPATCH_BY_NAME['vf.props.c14.LazyBase'] = pretty_node
         State.count, State.fault_at, State.sel = 0, i, sel
         with warnings.catch_warnings(record=True) as wlist:
             warnings.simplefilter('always')
@@ -279,6 +300,30 @@ class FaultCase(base.CaseBase):
             want = ast.dump(ast.parse('(' + expected_src(self.spec, failed_occ) + '\n)', mode='eval'))
             if got != want:
                 return self.fail('C14:other-parts-of-output-changed', describe)
+        # the same faulty print once more: reported again, same output
+        if failed is not None and self.params.get('repeat', True):
+            sel_c = 0
+            for j in range(len(EXCS)):
+                if sel == j:
+                    sel_c = j
+            State.count, State.fault_at, State.sel = 0, failed_occ, sel_c
+            with warnings.catch_warnings(record=True) as w3:
+                warnings.simplefilter('always')
+                try:
+                    if self.native:
+                        text3 = PKG.pformat(self.value, width=w, ribbon_width=rw)
+                    else:
+                        with NoTracing():
+                            text3 = PKG.pformat(self.value)
+                except Exception as e:
+                    State.fault_at = 0
+                    return self.fail('C14:repeated-fault-escapes-pformat', lambda: repr(e))
+            State.fault_at = 0
+            with NoTracing():
+                bad3 = [x for x in w3 if 'raised an exception' in str(x.message)]
+                if len(bad3) != 1:
+                    return self.fail('C14:repeated-fault-not-reported',
+                                     lambda: describe() + '\nsecond faulty print: %d warnings' % len(bad3))
         # a following fault-free print is unaffected
         State.count = 0
         with warnings.catch_warnings(record=True) as w2:
@@ -482,6 +527,10 @@ TREES = [
     ('shared-nested', N(1, N(2, I(1)), ['list', [I(0), ['ref', 2]]])),
     ('shared-in-dict', ['dict', [['a', N(1, N(2))], ['b', ['ref', 2]], ['c', ['ref', 1]]]]),
     ('shared-tc', ['list', [['tc', 'note', NT(1, I(1))], ['ref', 1]]]),
+    # printer registered by qualified name for the base class, first use through a subclass instance
+    ('by-name-top', ['lazynode', 1, [I(1)]]),
+    ('by-name-nested', ['list', [['lazynode', 1, [['lazynode', 2, [I(1)]]]], I(2), ['lazynode', 3, []]]]),
+    ('by-name-mixed', N(1, ['lazynode', 2, [I(1)]], N(3))),
 ]
 
 
